@@ -327,7 +327,7 @@ Lemma sealed_file_has ver m w f s :
   file_has hash ver f s = Ok (writer_has hash w s).
 Proof.
   intros Hw Hsm Hms Hseal Hp.
-  unfold seal in Hseal. destruct (enc_meta ver m) as [mb|] eqn:Emeta; [|discriminate].
+  unfold seal in Hseal. destruct (enc_meta ver m) as [mb|] eqn:Emeta; [|discriminate]. cbv zeta in Hseal.
   set (ps := prefixes ver w) in *. set (bks := map (entries_of w) ps) in *.
   set (tab0 := map (fun p => (p, 0)) ps) in *.
   set (tab := combine ps (offsets 0 bks)) in *.
@@ -335,7 +335,7 @@ Proof.
   set (hdr0 := enc_header ver 0 mb tab0) in *.
   set (hsz := N.of_nat (length hdr0 - 4) mod two32) in *.
   set (hdr := enc_header ver hsz mb tab) in *.
-  inversion Hseal as [Hf]. clear Hseal.
+  assert (Hf : overwrite (hdr0 ++ body) hdr = f) by (injection Hseal; auto). clear Hseal.
   (* sizes *)
   assert (Hpsl : N.of_nat (length ps) <= two16) by (apply prefixes_length; exact Hw).
   assert (Hol : length (offsets 0 bks) = length ps).
@@ -352,7 +352,7 @@ Proof.
   assert (Hhl : N.of_nat (length hdr) = 28 + N.of_nat (length mb) + 10 * N.of_nat (length ps)).
   { unfold hdr. rewrite enc_header_length, Htl. lia. }
   assert (Hhsz : hsz = N.of_nat (length hdr) - 4).
-  { unfold hsz. rewrite Hlen0. apply N.mod_small. unfold two32, two16 in *. lia. }
+  { unfold hsz. rewrite Hlen0. rewrite N.mod_small; unfold two32, two16 in *; lia. }
   assert (Efile : f = hdr ++ body).
   { rewrite <- Hf. apply overwrite_same. exact Hlen0. }
   (* the table *)
@@ -367,8 +367,8 @@ Proof.
       pose proof (offsets_lt bks 0 ltac:(unfold two64; lia)) as Hall. rewrite Forall_forall in Hall. now apply Hall. }
   assert (Hmeta : forall rest, skip_meta ver (mb ++ rest) = Ok rest).
   { intros rest. destruct ver; cbn [skip_meta enc_meta meta_small] in *.
-    - inversion Emeta; subst. now apply skip_meta1_roundtrip.
-    - now apply skip_meta2_roundtrip. }
+    - injection Emeta as Emb. rewrite <- Emb. apply skip_meta1_roundtrip. exact Hms.
+    - now apply (skip_meta2_roundtrip m). }
   assert (Hopen : open_ ver (file_reader f) = Ok {| r_tab := rev tab; r_base := N.of_nat (length hdr) |}).
   { rewrite Efile. unfold hdr.
     replace (N.of_nat (length (enc_header ver hsz mb tab))) with (hsz + 4) by (fold hdr; lia).
@@ -380,17 +380,20 @@ Proof.
   destruct (in_dec N.eq_dec (prefix s) ps) as [Hin|Hnin].
   - (* the prefix has a bucket in the file *)
     destruct (combine_In_l ps (offsets 0 bks) (prefix s) Hin Hol) as [o Ho]. fold tab in Ho.
-    destruct (layout_split (entries_of w) ps 0) with (p := prefix s) (o := o) as (pre & post & Eb & Eo).
+    assert (Hb64 : 0 + N.of_nat (length (flat_map bucket_bytes (map (entries_of w) ps))) < two64).
     { fold bks body. unfold two64, two16 in *. lia. }
-    { exact Ho. }
+    destruct (layout_split (entries_of w) ps 0 Hb64 (prefix s) o Ho) as (pre & post & Eb & Eo).
     fold bks body in Eb.
     assert (Ho63 : o < two63).
     { assert (N.of_nat (length pre) <= N.of_nat (length body)) by (rewrite Eb, app_length; lia).
       unfold two63, two16 in *. lia. }
-    destruct (has_located ver hdr pre (entries_of w (prefix s)) post tab s o HND Ho ltac:(lia) Ho63)
-      as (b & Hb & Hsound & Hcomplete).
+    assert (Hes_small : N.of_nat (length (entries_of w (prefix s))) < 536870912).
     { rewrite entries_length. apply Hsm. }
+    assert (Hes_lt : forall x, In x (entries_of w (prefix s)) -> x < two64).
     { intros x Hx. apply entries_In in Hx. eapply bucket_lt; eauto. }
+    assert (Eo' : o = N.of_nat (length pre)) by lia.
+    destruct (has_located ver hdr pre (entries_of w (prefix s)) post tab s o HND Ho Eo' Ho63 Hes_small Hes_lt)
+      as (b & Hb & Hsound & Hcomplete).
     rewrite Efile, Eb, Hb. f_equal.
     destruct (writer_has hash w s) eqn:Ewh.
     + apply writer_has_spec in Ewh. eapply Hcomplete. apply entries_complete. exact Ewh.
